@@ -128,6 +128,8 @@ func main() {
 	genClientInfo()
 	genQuery()
 	genLocal()
+	genManager()
+	genManagerCFG()
 	if forProp == "" || forProp == "C15" {
 		genLockset()
 	}
